@@ -62,6 +62,30 @@ func runC16(r *Run) {
 	}
 	ac.Done()
 
+	rs := r.Rule("C16.result", "every return of ParseURI yields either a URI or an error: never (nil, nil)", 1)
+	{
+		idx := errorResultIndex(fn)
+		rep := map[*ssa.Return]bool{}
+		n := 0
+		q := &PathQuery{P: p, Fn: fn}
+		q.AtReturn = func(ret *ssa.Return, st uint64, c *PathCtx) {
+			n++
+			if idx < 0 || len(ret.Results) != 2 || rep[ret] {
+				return
+			}
+			if c.NilState(ret.Results[1-idx]) == +1 && c.NilState(ret.Results[idx]) == +1 {
+				rep[ret] = true
+				rs.ViolationPath(fn, instrPos(ret), "return nil, nil", "on this path ParseURI returns neither a URI nor an error: callers that test only the error dereference a nil URI", c.Witness(fn, ret))
+			}
+		}
+		q.Run()
+		rs.Instance("ParseURI returns", true, map[string]int{"return_paths": n})
+		if q.Exhausted {
+			rs.Violation(fn, fn.Pos(), "path exploration exhausted", "undecided")
+		}
+	}
+	rs.Done()
+
 	lp := r.Rule("C16.loops", "every loop in the closure is a range loop or has a strictly monotone variant tied to an exit guard", 0)
 	for _, f := range cl {
 		checkLoops(r, lp, f, sums)
